@@ -115,7 +115,7 @@ K = [
     ('C03', 'KernelRun03', CORE, '(at, URGENT, next(self._eid), until)', '(self._now + (at - self._now), URGENT, next(self._eid), until)', 'VIOLATION'),
     ('C02', 'KernelEvent02', EVENTS, "has already been triggered')\n\n        self._ok = True", "has already been triggered')\n\n        self._ok = False", 'VIOLATION'),
     ('C02', 'KernelEvent02', EVENTS, '        if self._value is not PENDING:\n            raise RuntimeError', '        if self._value is PENDING:\n            raise RuntimeError', 'VIOLATION'),
-    (('C02', 'C01'), 'KernelEvent02', EVENTS, '                self._value = e.args[0] if len(e.args) else None\n                self.env.schedule(self)',
+    ('C01', 'KernelSched01', EVENTS, '                self._value = e.args[0] if len(e.args) else None\n                self.env.schedule(self)',
      '                self._value = e.args[0] if len(e.args) else None\n                self.env.schedule(self, URGENT)', 'VIOLATION'),
     ('C02', 'KernelEvent02', CORE, "if not event._ok and not hasattr(event, '_defused'):", "if not event._ok or not hasattr(event, '_defused'):", 'VIOLATION'),
     ('C03', 'KernelRun03', CORE, 'if at <= self.now:', 'if self.now >= at:', 'OK'),
@@ -219,11 +219,12 @@ CROSS = {
     ('onl/packet/tcp_sink.py', 'flow_id=packet.flow_id + 10000', 'flow_id=packet.flow_id + 1000'): (),
     # -- C01 replays split runs too and its text names the run-until stop: its correspondence sees the changed refusal
     (CORE, 'if at <= self.now:', 'if at < self.now:'): ('C01',),
-    # -- the end of a process becomes urgent: every kernel check whose scripts let a process end in the same instant as another
+    # -- the end of a process becomes urgent (the class is C01's alone: C02's file does not translate the priority argument): every
+    #    kernel check whose scripts let a process end in the same instant as another
     #    occurrence replays a different order (C04: its direct oracle fails too - an interrupt is overtaken; C03: `step()` plans count
     #    the reordered occurrences)
     (EVENTS, '                self._value = e.args[0] if len(e.args) else None\n                self.env.schedule(self)',
-     '                self._value = e.args[0] if len(e.args) else None\n                self.env.schedule(self, URGENT)'): ('C03', 'C04', 'C05', 'C06', 'C07', 'C20'),
+     '                self._value = e.args[0] if len(e.args) else None\n                self.env.schedule(self, URGENT)'): ('C02', 'C03', 'C04', 'C05', 'C06', 'C07', 'C20'),
     # -- interrupting anybody but oneself now raises: everything built on interrupts breaks for real (Timer.stop / restart: C19;
     #    preemption: C06, direct oracles fail) or is replayed differently (C01, C02, C05)
     (EVENTS, 'if process is self.env.active_process:', 'if process is not self.env.active_process:'): ('C01', 'C02', 'C03', 'C05', 'C06', 'C19', 'C20'),
